@@ -3,6 +3,7 @@
 //   harness run <Cxx> --tier quick|thorough --seed N --out DIR
 //   harness replay <Cxx> --case FILE --out DIR
 //   harness htmlvocab
+//   harness encodings
 package main
 
 import (
@@ -11,6 +12,7 @@ import (
 	"fmt"
 	"os"
 
+	"github.com/tsawler/tabula/font"
 	"github.com/tsawler/tabula/htmldoc"
 
 	"verifharness/hx"
@@ -41,6 +43,39 @@ func main() {
 	if len(os.Args) == 2 && os.Args[1] == "htmlvocab" {
 		// the compiled class/id patterns of htmldoc, for extract (Gen/HtmlVocab.lean)
 		b, _ := json.Marshal(htmldoc.VerifPatternSources())
+		fmt.Println(string(b))
+		return
+	}
+	if len(os.Args) == 2 && os.Args[1] == "encodings" {
+		// the six exported simple encodings as the built package behaves, for extract
+		// (fallback source of Gen/Encodings.lean)
+		vars := []string{"WinAnsiEncoding", "MacRomanEncoding", "PDFDocEncoding", "StandardEncodingTable", "SymbolEncoding", "ZapfDingbatsEncoding"}
+		encs := []font.Encoding{font.WinAnsiEncoding, font.MacRomanEncoding, font.PDFDocEncoding, font.StandardEncodingTable, font.SymbolEncoding, font.ZapfDingbatsEncoding}
+		out := map[string]interface{}{"vars": vars}
+		names, tables := map[string]string{}, map[string][]int64{}
+		varOf := func(e font.Encoding) string {
+			for i, x := range encs {
+				if x == e {
+					return vars[i]
+				}
+			}
+			return "?"
+		}
+		var dispatch [][2]string
+		for i, e := range encs {
+			names[vars[i]] = e.Name()
+			t := make([]int64, 256)
+			for b := 0; b < 256; b++ {
+				t[b] = int64(e.Decode(byte(b)))
+			}
+			tables[vars[i]] = t
+		}
+		for _, n := range []string{"WinAnsiEncoding", "MacRomanEncoding", "PDFDocEncoding", "StandardEncoding", "SymbolEncoding", "ZapfDingbatsEncoding"} {
+			dispatch = append(dispatch, [2]string{n, varOf(font.GetEncoding(n))})
+		}
+		out["names"], out["tables"], out["dispatch"] = names, tables, dispatch
+		out["default"] = varOf(font.GetEncoding("\x00no such encoding"))
+		b, _ := json.Marshal(out)
 		fmt.Println(string(b))
 		return
 	}
